@@ -126,28 +126,41 @@ class Registry:
 
 
 def random_registry(rnd, lname, nm=None, max_defs=3, shapes=(1, 2, 2, 5, 3), presentation='complete'):
+    """Sample methods / definitions on a named lattice.  Sizes are kept inside the container-model capacities by
+    construction (dispatch cells of a method <= 24, of all methods <= 40), so that no seed produces a bound-exceeded run."""
     direct = LATTICES[lname]
     nc = len(direct)
     anc = closure(direct)
     nm = nm or rnd.choice((1, 2))
-    methods, defs = [], []
-    for _ in range(nm):
-        shape = rnd.choice(shapes)
-        ar = SHAPE_AR[shape]
-        vp = [rnd.randrange(nc) for _ in range(ar)]
-        # prefer parameters with several derived classes
-        for p in range(ar):
-            cands = [c for c in range(nc) if sum(anc[d][c] for d in range(nc)) >= 2] or list(range(nc))
-            if rnd.random() < 0.8:
-                vp[p] = rnd.choice(cands)
-        nd = rnd.randrange(0, max_defs + 1)
-        ds = []
-        for _ in range(nd):
-            t = [rnd.choice([d for d in range(nc) if anc[d][vp[p]]]) for p in range(ar)]
-            if t not in ds:
-                ds.append(t)
-        methods.append((shape, vp))
-        defs.append(ds)
+    for _attempt in range(200):
+        methods, defs = [], []
+        total_cells = 0
+        for _ in range(nm):
+            shape = rnd.choice(shapes)
+            ar = SHAPE_AR[shape]
+            vp = [rnd.randrange(nc) for _ in range(ar)]
+            # prefer parameters with several derived classes
+            for p in range(ar):
+                cands = [c for c in range(nc) if sum(anc[d][c] for d in range(nc)) >= 2] or list(range(nc))
+                if rnd.random() < 0.8:
+                    vp[p] = rnd.choice(cands)
+            cells = 1
+            for p in range(ar):
+                cells *= sum(anc[d][vp[p]] for d in range(nc))
+            nd = rnd.randrange(0, max_defs + 1)
+            ds = []
+            for _ in range(nd):
+                t = [rnd.choice([d for d in range(nc) if anc[d][vp[p]]]) for p in range(ar)]
+                if t not in ds:
+                    ds.append(t)
+            methods.append((shape, vp))
+            defs.append(ds)
+            if ar > 1:
+                total_cells += cells
+                if cells > 24:
+                    total_cells = 10 ** 6
+        if total_cells <= 40:
+            break
     return Registry(lname, direct, methods, defs, presentation)
 
 
